@@ -28,6 +28,10 @@ impl<U: View, V: View> Prune for Div<U, V> {
         
         // If y contains zero or values too close to zero, we can't safely compute division
         if Val::range_contains_unsafe_divisor(y_min, y_max) {
+            // A divisor fixed to zero leaves no value for the result
+            if y_min == y_max {
+                return None;
+            }
             // We can still try to propagate some constraints if parts of the domain are safe
             return Some(());
         }
